@@ -131,6 +131,9 @@ static void build_floats(int full) {
   add_f(0.0); add_f(1.0); add_f(0.5); add_f(2.0); add_f(10.0); add_f(0.1); add_f(1.0 / 3.0); add_f(1.5); add_f(3.141592653589793);
   add_f(16777216.0); add_f(16777217.0); add_f(16777215.0); add_f(9007199254740992.0); add_f(9007199254740991.0); add_f(9007199254740993.0 + 1.0);
   add_f(DBL_MAX); add_f(DBL_MIN); add_f(DBL_EPSILON); add_f(FLT_MAX); add_f(FLT_MIN); add_f((double)FLT_MAX * 2); add_f((double)FLT_MIN / 2);
+  /* both ends of the float range, from inside and from outside */
+  add_f(nextafter((double)FLT_MAX, INFINITY)); add_f(nextafter((double)FLT_MAX, 0.0)); add_f(3.0e38); add_f(3.5e38); add_f(1e38); add_f(1e39); add_f(1e100); add_f(1e300);
+  add_f(nextafter((double)FLT_MIN, 0.0)); add_f(1.401298464324817e-45); add_f(1e-45); add_f(1e-46); add_f(7e-46); add_f(1e-39); add_f(1e-300); add_f(5e-324);
   add_f(4.9406564584124654e-324); add_f(2.2250738585072009e-308); add_f(1e-320);
   add_f(nextafter(1.0, 2.0)); add_f(nextafter(1.0, 0.0)); add_f(nextafter(DBL_MAX, 0.0));
   add_f(0.999999); add_f(0.9999995); add_f(0.0000005); add_f(0.0000004); add_f(123456.789); add_f(1e15 + 0.3); add_f(2.5); add_f(3.5); add_f(1e22); add_f(1e23);
@@ -153,7 +156,7 @@ static void build_floats(int full) {
   if (full) {
     for (int n = 1; n < 10; n++) { add_f(n / 10.0); add_f(n / 7.0); add_f(n / 3.0); add_f(n + 0.5); add_f(n * 1.1); }
   }
-  static const double pr[] = { 0.0, -0.0, 1.0, -1.0, 0.5, 0.1, -0.1, 16777217.0, 1e22, 1e-7, 4.9406564584124654e-324, -2.5, 1.0 / 3.0, 9007199254740993.0 + 1.0, 123456.789, 1e100 };
+  static const double pr[] = { 0.0, -0.0, 1.0, -1.0, 0.5, 0.1, -0.1, 16777217.0, 1e22, 1e-7, 4.9406564584124654e-324, -2.5, 1.0 / 3.0, 9007199254740993.0 + 1.0, 123456.789, 1e100, 1e39, -1e39 };
   for (int i = 0; i < NEL(pr); i++) for (int j = 0; j < NFV; j++) if (memcmp(&FV[j], &pr[i], sizeof(double)) == 0) { FPAIR = realloc(FPAIR, (NFPAIR + 1) * sizeof *FPAIR); FPAIR[NFPAIR++] = j; }
   if (full) {
     /* a wider pair grid: every 397th value as well */
@@ -235,6 +238,50 @@ static void pretty(char* out, size_t cap, const char* s) {
     else o += snprintf(out + o, cap - o, "\\x%02x", c);
   }
   out[o] = 0;
+}
+
+
+/*
+** "equal to within the printed precision": the text the writer produced must denote the value that
+** was written, to within half a unit of its last printed digit (hexadecimal text: exactly).  The
+** precision is read off the text itself, so no particular format is assumed for show_to / %$.
+** Returns NULL when fine, else a short description.
+*/
+static const char* text_denotes(const char* txt, double v, char* why, size_t cap) {
+  const char* t = txt;
+  while (*t == ' ') t++;
+  if (*t == '+' || *t == '-') t++;
+  double r = strtod(txt, NULL);
+  long double tol;
+  if (!isdigit((unsigned char)*t)) {
+    snprintf(why, cap, "the text \"%s\" is not a number", txt); return why;
+  }
+  if (t[0] == '0' && (t[1] == 'x' || t[1] == 'X')) tol = 0;
+  else {
+    int d = 0, seen_point = 0; long ex = 0;
+    for (; *t; t++) {
+      if (*t == '.') seen_point = 1;
+      else if (isdigit((unsigned char)*t)) { if (seen_point) d++; }
+      else if (*t == 'e' || *t == 'E') { ex = strtol(t + 1, NULL, 10); break; }
+      else break;
+    }
+    tol = 0.5L * powl(10.0L, (long double)(ex - d)) * (1.0L + 1e-9L);
+  }
+  tol += 4e-16L * fabsl((long double)v);
+  if (isinf(r)) {
+    /* rounding at the printed precision may carry past DBL_MAX; nothing else may */
+    if (fabsl((long double)v) + tol >= (long double)DBL_MAX && ((r > 0) == (v > 0))) return NULL;
+    snprintf(why, cap, "the text \"%.40s\" reads as %s", txt, r > 0 ? "+infinity" : "-infinity"); return why;
+  }
+  if (fabsl((long double)r - (long double)v) <= tol) return NULL;
+  snprintf(why, cap, "the text \"%.60s\" denotes %.17g, farther from the value than half a unit of its last digit", txt, r);
+  return why;
+}
+static const char* feat_float_value(double v) {
+  double m = fabs(v);
+  if (m > FLT_MAX) return "beyond-float-range";
+  if (m != 0 && m < FLT_MIN) return "below-float-range";
+  return "within-float-range";
 }
 
 /* ---- sinks --------------------------------------------------------------------------- */
@@ -368,6 +415,17 @@ static int run_case(const struct value* a, const struct value* b, const struct s
     e = VF_CATCH(wpos = do_write(w, TXT, 0, b->type, vb));
     if (e) { kase = mkcase(a, b, w, r, sk, start, sepi); vf_violation(LBL(T, w->name, wfeat, "write-raises"), kase, "writing raised %s", vf_exc_name(e)); return 1; }
     snprintf(text_b, sizeof text_b, "%s", c_str(TXT));
+  }
+  if (a->type == T_FLOAT) {
+    char why[200];
+    const struct value* fv[2] = { a, b }; const char* ft[2] = { text_a, text_b };
+    for (int k = 0; k < (b ? 2 : 1); k++) {
+      if (text_denotes(ft[k], fv[k]->f, why, sizeof why)) {
+        kase = mkcase(a, b, w, r, sk, start, sepi);
+        vf_violation(LBL(T, w->name, feat_float_value(fv[k]->f), "written-text-is-not-the-value"), kase, "wrote %.17g (%a): %s", fv[k]->f, fv[k]->f, why);
+        return 1;
+      }
+    }
   }
   snprintf(expect_text, sizeof expect_text, "%s%s%s%s%s%s", filler, pre, text_a, sep, text_b, post);
   size_t la = strlen(text_a), lb = strlen(text_b), ls = strlen(sep), total = strlen(expect_text);
